@@ -51,8 +51,11 @@ def analyze(ctx, want):
             seen.add("accepting")
             # idx = position(terminal_map, id == end_states[state].1) + 1
             lin, cst = S.linear(idx) if idx is not None else ({}, None)
-            pos = [a for a in lin if S.mentions(a, lambda x: x[0] == "app" and re.search(r"Iterator>::position::", x[1]) is not None)]
+            # index of the state's terminal in the sorted, deduplicated list: position(== terminal) or binary_search(&terminal)
+            pos = [a for a in lin if S.mentions(a, lambda x: x[0] == "app" and re.search(r"Iterator>::position::|<impl \[.*\]>::binary_search$", x[1]) is not None)]
             ok = cst == 1 and len(lin) == 1 and len(pos) == 1
+            if ok and S.mentions(pos[0], lambda x: x[0] == "app" and re.search(r"binary_search$", x[1]) is not None):
+                ok = S.mentions(pos[0], lambda x: x[0] == "field" and x[2] == "1" and "end_states" in S.fstr(x))
             ob("C03.a", "accepting-state-grouped-by-its-terminal", ok, "group index %s (must be 1 + the position of the state's terminal in the sorted, deduplicated terminal list)" % (S.fstr(idx)[:120] if idx else None), ip.loc())
         else:
             seen.add("non-accepting")
